@@ -102,5 +102,8 @@ Definition table : list (string * (sx -> sx)) := [
   ("emit.ninja", fun a => sx_list sx_nbuild (emit_ninja (un_script (nth_sx 0 a))));
   ("emit.command_extra_deps", fun a =>
      sx_list A (command_extra_deps (un_bool (nth_sx 0 a)) (un_cmdnodes (nth_sx 1 a)) (un_Ns (nth_sx 2 a))));
+  ("emit.command_lines_extra_deps", fun a =>
+     sx_list A (command_lines_extra_deps (un_bool (nth_sx 0 a)) (List.map un_cmdnodes (un_list (nth_sx 1 a)))
+                                         (un_Ns (nth_sx 2 a))));
   ("emit.test_inputs", fun a => sx_list A (test_inputs (un_cmdnodes (nth_sx 0 a))))
 ]%string.
